@@ -276,6 +276,10 @@ def strategies(max_steps):
                     if pos:
                         s = pos[0] - draw(st.integers(0, 1))
                         return ["slice", max(0, s), pos[-1] + draw(st.integers(0, 1)) + (1 if len(pos) > 1 else 3)]
+            if n >= 2 and draw(st.integers(0, 3)):
+                s = pick(draw, list(range(1, n)) + [0])
+                e = pick(draw, list(range(s + 1, n + 1)) + [n + 2])
+                return ["slice", s, e]
             s = draw(st.integers(0, n + 1))
             e = draw(st.integers(0, n + 2))
             if s > e and draw(st.integers(0, 3)):
@@ -319,7 +323,7 @@ def strategies(max_steps):
             kinds = {}
             for i, c in enumerate(cols):
                 kinds[c] = "i" if i == 0 and draw(st.integers(0, 3)) else pick(draw, ["i", "i", "s", "s", "o"])
-            n = draw(st.integers(0, 7))
+            n = pick(draw, [4, 2, 3, 5, 1, 6, 0, 7, 3])     # (Hypothesis favours the ends of a range: keep 0 off them)
             form = pick(draw, ["dicts", "dicts", "dicts+cols", "dicts+dictcols", "tuples+cols", "coldict", "df", "df"])
             if n == 0 and form == "dicts":
                 form = "dicts+cols"
